@@ -142,6 +142,9 @@ class Tr:
             return self.tag_of(e[2][0][2])
         if e[0] == "block" and e[2] is not None:
             return self.tag_of(e[2])
+        if e[0] == "mcall" and e[1][0] == "field" and e[1][1][0] == "path" and len(e[1][1][1]) == 1 and \
+                ("mcall", f"{e[1][1][1][0]}.{e[1][2]}", e[2]) in self.tb.effects:
+            return self.tb.effects[("mcall", f"{e[1][1][1][0]}.{e[1][2]}", e[2])].get("ret")
         if e[0] == "mcall":
             t = self.tag_of(e[1])
             spec = self.tb.methods.get((t, e[2])) or self.tb.methods.get((None, e[2]))
@@ -153,6 +156,9 @@ class Tr:
 
     def tag_err(self, e):
         """error type tag of a `Result` expression (for the `From` conversion applied by `?`)"""
+        if e[0] == "mcall" and e[1][0] == "field" and e[1][1][0] == "path" and len(e[1][1][1]) == 1 and \
+                ("mcall", f"{e[1][1][1][0]}.{e[1][2]}", e[2]) in self.tb.effects:
+            return self.tb.effects[("mcall", f"{e[1][1][1][0]}.{e[1][2]}", e[2])].get("ret")
         if e[0] == "mcall":
             t = self.tag_of(e[1])
             spec = self.tb.methods.get((t, e[2])) or self.tb.methods.get((None, e[2]))
@@ -480,6 +486,9 @@ class Tr:
         recv, name, args = e[1], e[2], e[3]
         if recv[0] == "path" and len(recv[1]) == 1 and ("mcall", recv[1][0], name) in self.tb.effects:
             return self.effect(("mcall", recv[1][0], name), args, recv, ctx, k)
+        if recv[0] == "field" and recv[1][0] == "path" and len(recv[1][1]) == 1 and \
+                ("mcall", f"{recv[1][1][0]}.{recv[2]}", name) in self.tb.effects:
+            return self.effect(("mcall", f"{recv[1][1][0]}.{recv[2]}", name), args, recv, ctx, k)
         tag = self.tag_of(recv)
         spec = self.tb.methods.get((tag, name))
         if spec is None:
@@ -503,6 +512,22 @@ class Tr:
             if sub is None:
                 raise Unsupported(f"{self.fname}: .{name}() with argument kind {self.tag_of(args[0])}")
             return self.exs([recv] + args, ctx, lambda ts: k(sub.format(*[self.par(t) for t in ts])))
+        if kind == "lazy_default":   # opt.unwrap_or_else(|| body)
+            clo = args[0]
+            if clo[0] != "closure" or clo[1]:
+                raise Unsupported(f"{self.fname}: .{name} needs a closure without parameters")
+            body = self.pure(clo[2], ctx)
+            return self.ex(recv, ctx, lambda t: k(f"(match {t} with | some v => v | none => {body})"))
+        if kind == "and_then_effect":   # res.and_then(|()| <effectful expression>)
+            clo = args[0]
+            if clo[0] != "closure" or len(clo[1]) != 1:
+                raise Unsupported(f"{self.fname}: .{name} needs a one-parameter closure")
+            def with_r(t):
+                v, er = self.pat(clo[1][0]), self.fresh("e")
+                ty = spec.get("ty")
+                err = f"(Except.error {er} : {ty})" if ty else f"(.error {er})"
+                return ("match", t, [([f".ok {v}"], self.ex(clo[2], ctx, k)), ([f".error {er}"], k(err))])
+            return self.ex(recv, ctx, with_r)
         if kind == "lamfmt":      # recv.m(|x| body): closure translated as a lambda term (must be simple)
             clo = args[0]
             if clo[0] == "path" and "::".join(clo[1]) in self.tb.fns:
